@@ -38,9 +38,11 @@ structure Inv1 (P : Params) (s : State) : Prop where
   lower_ge : ∀ k, k < s.fin → s.lts k ≤ s.lower
   com_le : s.com ≤ s.fin ∧ s.outcomes.length = s.com
   fin_le : s.fin ≤ P.n
+  active_lt : ∀ i, s.status i ≠ .initial → i < P.n
 
 theorem inv1_init (P : Params) : Inv1 P init := by
-  refine ⟨by simp [init], by simp [init], ?_, ?_, ?_, ?_, by simp [init], by simp [init], by simp [init]⟩
+  refine ⟨by simp [init], by simp [init], ?_, ?_, ?_, ?_, by simp [init], by simp [init], by simp [init],
+    by intro i h; simp [init] at h⟩
   · intro i; simp [init, PhaseClock]
   · intro i; simp [init, PhaseStatus]
   · intro i; simp [init, TailTarget]
@@ -63,13 +65,14 @@ theorem PhaseClock.mono {c c' u : Nat} {p : Phase} (h : PhaseClock c u p) (hc : 
     lower, com unchanged. -/
 theorem Inv1.move {P : Params} {s : State} (h : Inv1 P s) (i : TxId) (p : Phase) (st : Status)
     (hps : PhaseStatus p st) (htt : TailTarget i p) (hpc : PhaseClock s.clock (s.uts i) p)
-    (hfin : st = .finality ↔ s.status i = .finality)
+    (hfin : st = .finality ↔ s.status i = .finality) (hact : st ≠ .initial → i < P.n)
     (s' : State)
     (e1 : s'.clock = s.clock) (e2 : s'.lts = s.lts) (e3 : s'.uts = s.uts) (e4 : s'.fin = s.fin)
     (e5 : s'.lower = s.lower) (e6 : s'.com = s.com) (e7 : s'.outcomes = s.outcomes)
     (e8 : s'.phase = updF s.phase i p) (e9 : s'.status = updF s.status i st) : Inv1 P s' := by
   refine ⟨by rw [e1, e2]; exact h.clk_lts, by rw [e1, e3]; exact h.clk_uts, ?_, ?_, ?_, ?_,
-    by rw [e2, e4, e5]; exact h.lower_ge, by rw [e4, e6, e7]; exact h.com_le, by rw [e4]; exact h.fin_le⟩
+    by rw [e2, e4, e5]; exact h.lower_ge, by rw [e4, e6, e7]; exact h.com_le, by rw [e4]; exact h.fin_le,
+    ?_⟩
   · intro j
     rw [e1, e3, e8]
     by_cases hj : j = i
@@ -90,6 +93,11 @@ theorem Inv1.move {P : Params} {s : State} (h : Inv1 P s) (i : TxId) (p : Phase)
     by_cases hj : j = i
     · subst hj; simp only [updF_same]; rw [hfin]; exact h.fin_status j
     · rw [updF_ne _ _ _ _ hj]; exact h.fin_status j
+  · intro j
+    rw [e9]
+    by_cases hj : j = i
+    · subst hj; simp only [updF_same]; exact hact
+    · rw [updF_ne _ _ _ _ hj]; exact h.active_lt j
 
 theorem updF_self {α : Type} (f : Nat → α) (i : Nat) : updF f i (f i) = f := by
   funext j; simp only [updF]; split
@@ -101,87 +109,97 @@ theorem inv1_step {P : Params} {s s' : State} (h : Inv1 P s) (hs : Step P s s') 
   cases hs with
   | claimExec i hi hp hs =>
     refine h.move i _ .executing (by simp [PhaseStatus]) (by simp [TailTarget]) (by simp [PhaseClock])
-      ?_ _ rfl rfl rfl rfl rfl rfl rfl rfl rfl
+      ?_ (fun _ => hi) _ rfl rfl rfl rfl rfl rfl rfl rfl rfl
     rcases hs with hs | hs <;> simp [hs]
   | execReadMv i l k reads blocked j e hp hr =>
     have := hst i; rw [hp] at this; simp only [PhaseStatus] at this
     refine h.move i _ (s.status i) (by simp [PhaseStatus, this]) (by simp [TailTarget])
-      (by simp [PhaseClock]) Iff.rfl _ rfl rfl rfl rfl rfl rfl rfl rfl ?_
+      (by simp [PhaseClock]) Iff.rfl (h.active_lt i) _ rfl rfl rfl rfl rfl rfl rfl rfl ?_
     simp [setPhase, updF_self]
   | execReadBase i l k reads blocked hp hr =>
     have := hst i; rw [hp] at this; simp only [PhaseStatus] at this
     refine h.move i _ (s.status i) (by simp [PhaseStatus, this]) (by simp [TailTarget])
-      (by simp [PhaseClock]) Iff.rfl _ rfl rfl rfl rfl rfl rfl rfl rfl ?_
+      (by simp [PhaseClock]) Iff.rfl (h.active_lt i) _ rfl rfl rfl rfl rfl rfl rfl rfl ?_
     simp [setPhase, updF_self]
   | execFinishOk i w o reads blocked hp =>
     have := hst i; rw [hp] at this; simp only [PhaseStatus] at this
     refine h.move i _ (s.status i) (by simp [PhaseStatus, this]) (by simp [TailTarget])
-      (by simp [PhaseClock]) Iff.rfl _ rfl rfl rfl rfl rfl rfl rfl rfl ?_
+      (by simp [PhaseClock]) Iff.rfl (h.active_lt i) _ rfl rfl rfl rfl rfl rfl rfl rfl ?_
     simp [updF_self]
   | execFinishErr i e reads blocked hp =>
     have := hst i; rw [hp] at this; simp only [PhaseStatus] at this
     refine h.move i _ (s.status i) (by simp [PhaseStatus, this]) (by simp [TailTarget])
-      (by simp [PhaseClock]) Iff.rfl _ rfl rfl rfl rfl rfl rfl rfl rfl ?_
+      (by simp [PhaseClock]) Iff.rfl (h.active_lt i) _ rfl rfl rfl rfl rfl rfl rfl rfl ?_
     simp [setPhase, updF_self]
   | publishOne i run l todo newLoc v hp hl hv =>
     have := hst i; rw [hp] at this; simp only [PhaseStatus] at this
     refine h.move i _ (s.status i) (by simp [PhaseStatus, this]) (by simp [TailTarget])
-      (by simp [PhaseClock]) Iff.rfl _ rfl rfl rfl rfl rfl rfl rfl rfl ?_
+      (by simp [PhaseClock]) Iff.rfl (h.active_lt i) _ rfl rfl rfl rfl rfl rfl rfl rfl ?_
     simp [updF_self]
   | endPublish i run newLoc hp =>
     have := hst i; rw [hp] at this; simp only [PhaseStatus] at this
     refine h.move i _ (s.status i) (by simp [PhaseStatus, this]) (by simp [TailTarget])
-      (by simp [PhaseClock]) Iff.rfl _ rfl rfl rfl rfl rfl rfl rfl rfl ?_
+      (by simp [PhaseClock]) Iff.rfl (h.active_lt i) _ rfl rfl rfl rfl rfl rfl rfl rfl ?_
     simp [setPhase, updF_self]
   | removeOne i run l todo newLoc hp hl =>
     have := hst i; rw [hp] at this; simp only [PhaseStatus] at this
     refine h.move i _ (s.status i) (by simp [PhaseStatus, this]) (by simp [TailTarget])
-      (by simp [PhaseClock]) Iff.rfl _ rfl rfl rfl rfl rfl rfl rfl rfl ?_
+      (by simp [PhaseClock]) Iff.rfl (h.active_lt i) _ rfl rfl rfl rfl rfl rfl rfl rfl ?_
     simp [updF_self]
   | recordBlocked i run newLoc hp hb =>
     have := hst i; rw [hp] at this; simp only [PhaseStatus] at this
     refine h.move i _ (s.status i) (by simp [PhaseStatus, this]) (by simp [TailTarget])
-      (by simp [PhaseClock]) Iff.rfl _ rfl rfl rfl rfl rfl rfl rfl rfl ?_
+      (by simp [PhaseClock]) Iff.rfl (h.active_lt i) _ rfl rfl rfl rfl rfl rfl rfl rfl ?_
     simp [setPhase, updF_self]
   | recordRewind i run newLoc handoff hp hb hn =>
     have := hst i; rw [hp] at this; simp only [PhaseStatus] at this
     refine h.move i _ (s.status i) (by simp [PhaseStatus, this]) (by simp [TailTarget])
-      (by simp [PhaseClock]) Iff.rfl _ rfl rfl rfl rfl rfl rfl rfl rfl ?_
+      (by simp [PhaseClock]) Iff.rfl (h.active_lt i) _ rfl rfl rfl rfl rfl rfl rfl rfl ?_
     simp [setPhase, updF_self]
   | recordDirect i run hp hb =>
     have := hst i; rw [hp] at this; simp only [PhaseStatus] at this
     refine h.move i _ .validating (by simp [PhaseStatus]) (by simp [TailTarget])
-      (by simp [PhaseClock]) (by simp [this]) _ rfl rfl rfl rfl rfl rfl rfl rfl rfl
+      (by simp [PhaseClock]) (by simp [this]) (fun _ => h.active_lt i (by rw [this]; simp)) _
+      rfl rfl rfl rfl rfl rfl rfl rfl rfl
   | markErrSome i e ow l todo en hp hl hm =>
     have := hst i; rw [hp] at this; simp only [PhaseStatus] at this
     refine h.move i _ (s.status i) (by simp [PhaseStatus, this]) (by simp [TailTarget])
-      (by simp [PhaseClock]) Iff.rfl _ rfl rfl rfl rfl rfl rfl rfl rfl ?_
+      (by simp [PhaseClock]) Iff.rfl (h.active_lt i) _ rfl rfl rfl rfl rfl rfl rfl rfl ?_
     simp [updF_self]
   | markErrNone i e ow l todo hp hl hm =>
     have := hst i; rw [hp] at this; simp only [PhaseStatus] at this
     refine h.move i _ (s.status i) (by simp [PhaseStatus, this]) (by simp [TailTarget])
-      (by simp [PhaseClock]) Iff.rfl _ rfl rfl rfl rfl rfl rfl rfl rfl ?_
+      (by simp [PhaseClock]) Iff.rfl (h.active_lt i) _ rfl rfl rfl rfl rfl rfl rfl rfl ?_
     simp [setPhase, updF_self]
   | markValSome i l todo en hp hl hm =>
     have := hst i; rw [hp] at this; simp only [PhaseStatus] at this
     refine h.move i _ (s.status i) (by simp [PhaseStatus, this]) (by simp [TailTarget])
-      (by simp [PhaseClock]) Iff.rfl _ rfl rfl rfl rfl rfl rfl rfl rfl ?_
+      (by simp [PhaseClock]) Iff.rfl (h.active_lt i) _ rfl rfl rfl rfl rfl rfl rfl rfl ?_
     simp [updF_self]
   | markValNone i l todo hp hl hm =>
     have := hst i; rw [hp] at this; simp only [PhaseStatus] at this
     refine h.move i _ (s.status i) (by simp [PhaseStatus, this]) (by simp [TailTarget])
-      (by simp [PhaseClock]) Iff.rfl _ rfl rfl rfl rfl rfl rfl rfl rfl ?_
+      (by simp [PhaseClock]) Iff.rfl (h.active_lt i) _ rfl rfl rfl rfl rfl rfl rfl rfl ?_
     simp [setPhase, updF_self]
   | endErrMark i e ow hp =>
     have := hst i; rw [hp] at this; simp only [PhaseStatus] at this
     refine h.move i _ (s.status i) (by simp [PhaseStatus, this]) (by simp [TailTarget])
-      (by simp [PhaseClock]) Iff.rfl _ rfl rfl rfl rfl rfl rfl rfl rfl ?_
+      (by simp [PhaseClock]) Iff.rfl (h.active_lt i) _ rfl rfl rfl rfl rfl rfl rfl rfl ?_
     simp [updF_self]
-  | tailTs i k st hp =>
+  | tailSkip i k st hp hk =>
+    have hsi := hst i; rw [hp] at hsi; simp only [PhaseStatus] at hsi
+    refine h.move i .idle st ?_ (by simp [TailTarget]) (by simp [PhaseClock]) ?_
+      (fun _ => h.active_lt i (by rcases hsi.1 with h' | h' <;> rw [h'] <;> simp)) _
+      rfl rfl rfl rfl rfl rfl rfl rfl rfl
+    · rcases hsi.2 with h' | h' <;> simp [PhaseStatus, h']
+    · constructor
+      · intro h'; rcases hsi.2 with h2 | h2 <;> rw [h2] at h' <;> cases h'
+      · intro h'; rcases hsi.1 with h2 | h2 <;> rw [h2] at h' <;> cases h'
+  | tailTs i k st hp hk =>
     have hsi := hst i; rw [hp] at hsi; simp only [PhaseStatus] at hsi
     have htt := h.tail_target i; rw [hp] at htt; simp only [TailTarget] at htt
     refine ⟨fun k' => Nat.lt_succ_of_lt (h.clk_lts k'), fun k' => Nat.lt_succ_of_lt (h.clk_uts k'),
-      ?_, ?_, ?_, h.fin_status, h.lower_ge, h.com_le, h.fin_le⟩
+      ?_, ?_, ?_, h.fin_status, h.lower_ge, h.com_le, h.fin_le, h.active_lt⟩
     · intro j
       show PhaseClock (s.clock + 1) (s.uts j) (updF s.phase i (.tailLts k s.clock st) j)
       by_cases hj : j = i
@@ -205,7 +223,14 @@ theorem inv1_step {P : Params} {s s' : State} (h : Inv1 P s) (hs : Step P s s') 
       intro hlt
       have := (h.fin_status i).mpr hlt
       rcases hsi.1 with h1 | h1 <;> rw [h1] at this <;> cases this
-    refine ⟨?_, h.clk_uts, ?_, ?_, ?_, ?_, ?_, h.com_le, h.fin_le⟩
+    refine ⟨?_, h.clk_uts, ?_, ?_, ?_, ?_, ?_, h.com_le, h.fin_le, ?_⟩
+    rotate_right
+    · intro j
+      show updF s.status i st j ≠ .initial → j < P.n
+      by_cases hj : j = i
+      · subst hj; intro _
+        exact h.active_lt j (by rcases hsi.1 with h' | h' <;> rw [h'] <;> simp)
+      · rw [updF_ne _ _ _ _ hj]; exact h.active_lt j
     · intro k'
       show updF s.lts k (max (s.lts k) ts) k' < s.clock
       by_cases hk : k' = k
@@ -247,12 +272,13 @@ theorem inv1_step {P : Params} {s s' : State} (h : Inv1 P s) (hs : Step P s s') 
       · rw [updF_ne _ _ _ _ hk]; exact h.lower_ge k' hk'
   | claimVal i hp hs =>
     refine h.move i _ .validating (by simp [PhaseStatus]) (by simp [TailTarget]) (by simp [PhaseClock])
-      ?_ _ rfl rfl rfl rfl rfl rfl rfl rfl rfl
+      ?_ (fun _ => h.active_lt i (by rcases hs with hs | hs <;> simp [hs])) _
+      rfl rfl rfl rfl rfl rfl rfl rfl rfl
     rcases hs with hs | hs <;> simp [hs]
   | valTs i r hp hr =>
     have hsi := hst i; rw [hp] at hsi; simp only [PhaseStatus] at hsi
     refine ⟨fun k' => Nat.lt_succ_of_lt (h.clk_lts k'), fun k' => Nat.lt_succ_of_lt (h.clk_uts k'),
-      ?_, ?_, ?_, h.fin_status, h.lower_ge, h.com_le, h.fin_le⟩
+      ?_, ?_, ?_, h.fin_status, h.lower_ge, h.com_le, h.fin_le, h.active_lt⟩
     · intro j
       show PhaseClock (s.clock + 1) (s.uts j) (updF s.phase i (.valScan s.clock [] r.reads false) j)
       by_cases hj : j = i
@@ -272,17 +298,23 @@ theorem inv1_step {P : Params} {s s' : State} (h : Inv1 P s) (hs : Step P s s') 
     have := hst i; rw [hp] at this; simp only [PhaseStatus] at this
     have hck := h.clk_phase i; rw [hp] at hck; simp only [PhaseClock] at hck
     refine h.move i _ (s.status i) (by simp [PhaseStatus, this]) (by simp [TailTarget])
-      (by simpa [PhaseClock] using hck) Iff.rfl _ rfl rfl rfl rfl rfl rfl rfl rfl ?_
+      (by simpa [PhaseClock] using hck) Iff.rfl (h.active_lt i) _ rfl rfl rfl rfl rfl rfl rfl rfl ?_
     simp [setPhase, updF_self]
   | endScanConflict i ts done hp =>
     have := hst i; rw [hp] at this; simp only [PhaseStatus] at this
     refine h.move i _ (s.status i) (by simp [PhaseStatus, this]) (by simp [TailTarget])
-      (by simp [PhaseClock]) Iff.rfl _ rfl rfl rfl rfl rfl rfl rfl rfl ?_
+      (by simp [PhaseClock]) Iff.rfl (h.active_lt i) _ rfl rfl rfl rfl rfl rfl rfl rfl ?_
     simp [setPhase, updF_self]
   | endScanOk i ts done hp =>
     have hsi := hst i; rw [hp] at hsi; simp only [PhaseStatus] at hsi
     have hck := h.clk_phase i; rw [hp] at hck; simp only [PhaseClock] at hck
-    refine ⟨h.clk_lts, ?_, ?_, ?_, ?_, ?_, h.lower_ge, h.com_le, h.fin_le⟩
+    refine ⟨h.clk_lts, ?_, ?_, ?_, ?_, ?_, h.lower_ge, h.com_le, h.fin_le, ?_⟩
+    rotate_right
+    · intro j
+      show updF s.status i .unconfirmed j ≠ .initial → j < P.n
+      by_cases hj : j = i
+      · subst hj; intro _; exact h.active_lt j (by rw [hsi]; simp)
+      · rw [updF_ne _ _ _ _ hj]; exact h.active_lt j
     · intro k'
       show updF s.uts i (max (s.uts i) ts) k' < s.clock
       by_cases hk : k' = i
@@ -316,10 +348,16 @@ theorem inv1_step {P : Params} {s s' : State} (h : Inv1 P s) (hs : Step P s s') 
   | endValMark i hp =>
     have := hst i; rw [hp] at this; simp only [PhaseStatus] at this
     refine h.move i _ (s.status i) (by simp [PhaseStatus, this]) (by simp [TailTarget])
-      (by simp [PhaseClock]) Iff.rfl _ rfl rfl rfl rfl rfl rfl rfl rfl ?_
+      (by simp [PhaseClock]) Iff.rfl (h.active_lt i) _ rfl rfl rfl rfl rfl rfl rfl rfl ?_
     simp [setPhase, updF_self]
   | finalize hi hp hs hg =>
-    refine ⟨h.clk_lts, h.clk_uts, h.clk_phase, ?_, h.tail_target, ?_, ?_, ?_, hi⟩
+    refine ⟨h.clk_lts, h.clk_uts, h.clk_phase, ?_, h.tail_target, ?_, ?_, ?_, hi, ?_⟩
+    rotate_right
+    · intro j
+      show updF s.status s.fin .finality j ≠ .initial → j < P.n
+      by_cases hj : j = s.fin
+      · subst hj; intro _; exact hi
+      · rw [updF_ne _ _ _ _ hj]; exact h.active_lt j
     · intro j
       show PhaseStatus (s.phase j) (updF s.status s.fin .finality j)
       by_cases hj : j = s.fin
@@ -340,7 +378,7 @@ theorem inv1_step {P : Params} {s s' : State} (h : Inv1 P s) (hs : Step P s s') 
       exact ⟨by have := h.com_le.1; omega, h.com_le.2⟩
   | commit r hc hr =>
     refine ⟨h.clk_lts, h.clk_uts, h.clk_phase, h.st_phase, h.tail_target, h.fin_status, h.lower_ge,
-      ?_, h.fin_le⟩
+      ?_, h.fin_le, h.active_lt⟩
     show s.com + 1 ≤ s.fin ∧ (s.outcomes ++ [r.out]).length = s.com + 1
     exact ⟨hc, by simp [h.com_le.2]⟩
 
